@@ -75,9 +75,7 @@ def one_case(rng, res, check_c11=True):
             # an honest history: the hypotheses of the theorem `honest_chain_verifies` must hold on the files in-toto wrote
             # (the theorem is not vacuous on real data) and its prediction must be what the implementation returns
             res.evaluations += 1
-            if not applies and any(st_.get("extra") is not None for st_ in h.steps):
-                res.count("honest_theorem_not_applicable_second_functionary")       # the theorem is about single-functionary steps
-            elif not applies:
+            if not applies:
                 res.fail("disagree", {"op": "honest_check", "desc": desc},
                          {"op": "honest_check", "why": "the hypotheses of honest_chain_verifies do not hold on an honest history"})
             elif honest["result"] != i.get("result"):
